@@ -52,6 +52,11 @@ func buildOverlay(harnessDirs []string) (map[string][]byte, []string, map[string
 		}
 	}
 	pkgSet := map[string]bool{}
+	var expanded []string
+	for _, hd := range harnessDirs {
+		expanded = append(expanded, strings.Split(hd, ",")...) // "c13,c14": c14's harnesses reuse c13's helpers
+	}
+	harnessDirs = expanded
 	for _, hd := range harnessDirs {
 		files, _ := filepath.Glob(filepath.Join(verifDir, "harness", hd, "*.go"))
 		for _, f := range files {
